@@ -370,7 +370,7 @@ def parse_number(tok):
   if w is None: return ("num", None, val)
   w = int(w)
   if w == 0: raise SvSyntaxError("zero-width literal")
-  if val >> w: raise SvSyntaxError(f"literal {tok} does not fit its width")
+  val &= (1 << w) - 1        # IEEE 1800 5.7.1: a number larger than its size is truncated from the left (legal; tools only warn)
   return ("num", w, val)
 
 
